@@ -52,6 +52,8 @@ pub struct BfsStats {
     pub samples: Vec<Value>,
     pub dead_ends: u64,
     pub pruned: u64,
+    /// the depth bound was reached with every level fully expanded
+    pub bounded_complete: bool,
 }
 
 pub struct Limits {
@@ -108,7 +110,13 @@ pub fn bfs<M: Model>(m: &M, lim: &Limits, found: &mut Vec<Found>) -> BfsStats {
     st.closed = true;
     let mut vio_keys: HashSet<String> = HashSet::new();
     while !frontier.is_empty() {
-        if depth >= lim.max_depth || t0.elapsed().as_secs_f64() > lim.wall_s || seen.len() > lim.max_states {
+        if depth >= lim.max_depth {
+            // every history of length <= max_depth has been executed: the bounded space is covered
+            st.closed = false;
+            st.bounded_complete = true;
+            break;
+        }
+        if t0.elapsed().as_secs_f64() > lim.wall_s || seen.len() > lim.max_states {
             st.closed = false;
             break;
         }
@@ -200,6 +208,7 @@ pub fn replay<M: Model>(m: &M, ops: &[M::Op]) -> Vec<Vio> {
 pub fn merge_stats(a: &mut BfsStats, b: &BfsStats) {
     a.states += b.states;
     a.transitions += b.transitions;
+    a.bounded_complete = (a.closed || a.bounded_complete) && (b.closed || b.bounded_complete) && !(a.closed && b.closed);
     a.closed = a.closed && b.closed;
     a.max_depth = a.max_depth.max(b.max_depth);
     a.wall_s += b.wall_s;
